@@ -1964,6 +1964,11 @@ impl VirtualFileSystem for Memfs {
             }
         }
 
+        // Nothing to do for a path that doesn't exist
+        if !guard.contains_entry(&path) {
+            return Ok(());
+        }
+
         // Next remove the file from its parent
         let dir = path.dir()?;
         if let Some(entry) = guard.get_entry_mut(&dir) {
